@@ -11,6 +11,8 @@ package main
 
 import (
 	"fmt"
+	"os"
+	"path/filepath"
 	"strconv"
 	"strings"
 	"time"
@@ -52,6 +54,10 @@ func genTimeout(r *rng, n int, tier string, emit func(string)) {
 	emit("to 1 stall=root:slow n=30 fill=0 pw=1 hw=1")
 	emit("to 1 stall=leaf:forever n=3 fill=0 pw=1 hw=1 shutblocks=1")
 	emit("to 3 stall=none:forever n=30 fill=0 pw=1 hw=1 sd=1")
+	emit("to 3 stall=none:forever n=12 fill=0 pw=1 hw=1 roots=3")
+	emit("to 1 stall=leaf:forever n=3 fill=0 pw=1 hw=1 roots=2")
+	emit("to 2 stall=inner:forever n=3 fill=0 pw=1 hw=1 file=1")
+	emit("to 4 stall=none:forever n=8 fill=0 pw=2 hw=1 file=1 roots=2")
 	if tier == "thorough" {
 		for i := 0; i < n; i++ {
 			role := r.pickS("root", "inner", "leaf", "handler")
@@ -59,7 +65,7 @@ func genTimeout(r *rng, n int, tier string, emit func(string)) {
 			// keep the number of events within what the pipeline can absorb above the stalled node, so that the main loop is
 			// not blocked on a full root buffer (that situation is the separate fill=1 scenario, known finding F6)
 			room := map[string]int{"root": pw + 1, "inner": pw + 2, "leaf": pw + 4, "handler": hw + 6}[role]
-			emit(fmt.Sprintf("to %d stall=%s:%s n=%d fill=0 pw=%d hw=%d", r.pick(1, 2, 6), role, r.pickS("forever", "long", "send", "forever"), r.intn(room)+1, pw, hw))
+			emit(fmt.Sprintf("to %d stall=%s:%s n=%d fill=0 pw=%d hw=%d roots=%d file=%d", r.pick(1, 2, 6), role, r.pickS("forever", "long", "send", "forever"), r.intn(room)+1, pw, hw, r.pick(1, 1, 2, 3), r.pick(0, 0, 1)))
 		}
 		emit("to 2 stall=inner:forever n=120 fill=1 pw=2 hw=1")
 		emit("to 2 stall=inner+handler:long n=3 fill=0 pw=2 hw=1")
@@ -130,8 +136,6 @@ func execTimeout(input string) string {
 		}
 	}
 	specs := []*nodeSpec{root, inner, leaf, handler}
-	setScenario(specs)
-	defer clearScenario(specs)
 	src := &sourceScript{stopAt: -1}
 	for i := 0; i < n; i++ {
 		src.events = append(src.events, fmt.Sprintf("e%d", i))
@@ -143,7 +147,50 @@ func execTimeout(input string) string {
 			ErrorHandler: &node.Config{ID: handler.id, Name: "vhsync", Workers: hw, BufferSize: 8},
 			Children: []*node.Config{{ID: inner.id, Name: "vsync", Workers: 1, BufferSize: 2,
 				Children: []*node.Config{{ID: leaf.id, Name: "vsync", Workers: 1, BufferSize: 2}}}}}}}
-	ex, err := executor.New(executor.WithConfig(cfg))
+	// roots=K: K-1 further, perfectly healthy trees (a root with one child) beside the one that may stall
+	extraRoots, _ := strconv.Atoi(opt["roots"])
+	for k := 1; k < extraRoots; k++ {
+		xr, xc := mk(2+2*k, "sync"), mk(3+2*k, "sync")
+		specs = append(specs, xr, xc)
+		cfg.Nodes = append(cfg.Nodes, &node.Config{ID: xr.id, Name: "vsync", Workers: 1, BufferSize: 2,
+			Children: []*node.Config{{ID: xc.id, Name: "vsync", Workers: 2, BufferSize: 1}}})
+	}
+	setScenario(specs)
+	defer clearScenario(specs)
+	var ex *executor.Executor
+	var err error
+	if opt["file"] == "1" {
+		// the application gives its configuration as a file: the timeout is what the file says
+		var sb strings.Builder
+		fmt.Fprintf(&sb, "application: verif\nmetricsprefix: verif\nshutdowntimeout: %d\nsource:\n  name: vsource\n  id: %s\nnodes:\n", timeoutSec, cfg.Source.ID)
+		var y func(n *node.Config, ind string)
+		y = func(n *node.Config, ind string) {
+			fmt.Fprintf(&sb, "%s- name: %s\n%s  id: %s\n%s  workers: %d\n%s  buffersize: %d\n", ind, n.Name, ind, n.ID, ind, n.Workers, ind, n.BufferSize)
+			if n.ErrorHandler != nil {
+				h := n.ErrorHandler
+				fmt.Fprintf(&sb, "%s  error_handler:\n%s    name: %s\n%s    id: %s\n%s    workers: %d\n%s    buffersize: %d\n", ind, ind, h.Name, ind, h.ID, ind, h.Workers, ind, h.BufferSize)
+			}
+			if len(n.Children) > 0 {
+				fmt.Fprintf(&sb, "%s  children:\n", ind)
+				for _, c := range n.Children {
+					y(c, ind+"    ")
+				}
+			}
+		}
+		for _, n := range cfg.Nodes {
+			y(n, "  ")
+		}
+		dir := filepath.Join(os.TempDir(), "fbverif-cfg")
+		_ = os.MkdirAll(dir, 0o755)
+		path := filepath.Join(dir, fmt.Sprintf("t%d-%d.yaml", os.Getpid(), run))
+		if werr := os.WriteFile(path, []byte(sb.String()), 0o644); werr != nil {
+			return "harness-error " + werr.Error()
+		}
+		ex, err = executor.New(executor.WithConfigFile(path))
+		os.Remove(path)
+	} else {
+		ex, err = executor.New(executor.WithConfig(cfg))
+	}
 	if err != nil {
 		return "harness-error " + err.Error()
 	}
